@@ -27,7 +27,7 @@ HORIZON = 2600
 
 
 def bounds(tier):
-    return {"H10": "scenarios {run, stop, stop+start, stop+stop, find(unicast|multicast)+stop, stop+find, stop_announce_service+find, connection_lost, SimpleService helper start+stop%s} x repetitions {0,1,2%s} x cyclic {off,1 s} x TTL {3, infinite} x collection timeout {0, 5 ms}; initial delay, request-response delay and every event instant symbolic (events anywhere in 0..3000 ms), delivery iteration symbolic; observed to %d ms after the last event" % (((", two instances", ",4") if tier == "thorough" else ("", "")) + (HORIZON,))}
+    return {"H10": "scenarios {run, stop, stop+start, stop+stop, find(unicast|multicast)+stop, stop+find, stop_announce_service+find, connection_lost, SimpleService helper start+stop%s} x repetitions {0,1,2%s} (3 as well for run/stop) x cyclic {off,1 s} x TTL {3, infinite} x collection timeout {0, 5 ms}; initial delay, request-response delay and every event instant symbolic (events anywhere in 0..3000 ms), delivery iteration symbolic; observed to %d ms after the last event" % (((", two instances", ",4") if tier == "thorough" else ("", "")) + (HORIZON,))}
 
 
 def cases(tier, seed):
@@ -37,7 +37,8 @@ def cases(tier, seed):
         scen += ["two-stop-find"]
     reps = [0, 1, 2] + ([4] if tier == "thorough" else [])
     for sc in scen:
-        for r in reps:
+        # the doubling of the repetition gaps shows from the third repetition on
+        for r in reps + ([3] if tier == "quick" and sc in ("run", "stop") else []):
             for cyc in (0, 1):
                 for ttl in (3, TTL_FOREVER):
                     for col in (0, 5):
